@@ -110,9 +110,26 @@ func c01Run(j *rt.Job, seed uint64, r *rt.Rec) {
 		return
 	}
 
+	// the slice returned by the previous Sign is kept (not copied) and judged again after the next Sign
+	var heldSig, heldMsg []byte
+	var heldDigest string
+	var heldIdx uint32
 	// checkSig judges one signature returned by Sign at index idx.
 	checkSig := func(k *xmss.XMSS, pk [67]byte, idx uint32, msg, sig []byte, err error, xc XCase) bool {
 		r.Eval(1)
+		if heldSig != nil {
+			acc, _ := libVerify(heldMsg, heldSig, pk)
+			if !acc || rt.Digest(heldSig) != heldDigest {
+				hc := xc
+				hc.Kind, hc.Cfg, hc.Idx, hc.Msg = "c01sig", c, idx, rt.Hex(msg)
+				r.Violate("C01/earlier-signature-changed", fmt.Sprintf("the signature returned for index %d no longer verifies / changed after the key signed again at index %d (%s)", heldIdx, idx, c), hc, "unchanged and valid", "changed")
+				return false
+			}
+			r.Count("earlier_signatures_still_valid", 1)
+		}
+		if err == nil && sig != nil {
+			heldSig, heldMsg, heldDigest, heldIdx = sig, msg, rt.Digest(sig), idx
+		}
 		xc.Kind, xc.Cfg, xc.Idx, xc.Msg = "c01sig", c, idx, rt.Hex(msg)
 		if err != nil || sig == nil {
 			r.Violate("C01/sign-error", fmt.Sprintf("Sign failed at index %d (%s): %v", idx, c, err), xc, "a signature", "error")
